@@ -50,14 +50,14 @@ def rib_attr(comp, ev, rec):
         return {"C08"} | {"rib": {"C01"}, "refs": {"C03"}, "mirror": {"C16"}, "pend": {"C02"}}.get(base, set())
     table = {
         "rib": {"C01"}, "fold": {"C01"}, "res": {"C01", "C06"}, "failedTrace": {"C01", "C12"},
-        "pend": {"C02"}, "pendShape": {"C02"}, "heldResolvable": {"C02"}, "heldNoFwd": {"C02"},
-        "dangling": {"C02"}, "try": {"C02"}, "incomplete": {"C02"}, "begin": {"C02"},
+        "pend": {"C02"}, "pendShape": {"C02"}, "heldResolvable": {"C02", "C06"}, "heldNoFwd": {"C02"},
+        "dangling": {"C02"}, "try": {"C02"}, "incomplete": {"C02", "C06"}, "begin": {"C02"},
         "refs": {"C03"}, "counters": {"C03"},
         "mirror": {"C16"}, "mirrorVsRib": {"C16"}, "rsnapMissing": {"C16"}, "rsnapTag": {"C16"},
         "rsnapContent": {"C16"}, "rsnapUnexpected": {"C16"}, "snapMutated": {"C16"}, "snapUndelivered": {"C16"},
         "answeredTwice": {"C06"}, "foreignAck": {"C06"},
         "flushResult": {"C08"}, "flushUnexpected": {"C08"},
-        "panic": {"C12"}, "errUnexpected": {"C12"}, "stateError": {"C01"},
+        "panic": {"C12"}, "hang": {"C12", "C10", "C11"}, "errUnexpected": {"C12"}, "stateError": {"C01"},
         "addniUnexpected": {"C01"}, "addniResult": {"C01"}, "deleteUnexpected": {"C01"},
     }
     if comp == "delVerdict":
@@ -69,14 +69,14 @@ def rib_attr(comp, ev, rec):
 class Segments:
     """Splits an NDJSON trace into segments (reset .. next reset) with light statistics."""
 
-    def __init__(self, path):
+    def __init__(self, path, prefix='{"ev":"reset"'):
         self.path = path
         self.starts = []
         self.nlines = 0
         with open(path) as f:
             for i, line in enumerate(f, 1):
                 self.nlines = i
-                if line.startswith('{"ev":"reset"'):
+                if line.startswith(prefix):
                     self.starts.append(i)
 
     def segment_of(self, lineno):
@@ -242,6 +242,33 @@ RIB_RULE = {
 
 
 class RIBFamily:
+    MC_MODULE = "GribiRIB_MC"
+    TRACE_MODULE = "GribiRIBTrace"
+    TRACE_SPEC = "TraceSpec"
+    VH_CMD = "rib-run"
+    FAMILY = "rib"
+    RESET_PREFIX = '{"ev":"reset"'
+
+    @staticmethod
+    def cfg(**kw):
+        return rib_cfg(**kw)
+
+    @staticmethod
+    def attr(comp, ev, rec):
+        return rib_attr(comp, ev, rec)
+
+    @staticmethod
+    def stats(path, prop):
+        return rib_trace_stats(path, prop)
+
+    @staticmethod
+    def to_inputs(evs):
+        return events_to_inputs(evs)
+
+    def vh_args(self, ctx, rc):
+        return ["-random", str(rc["n"]), "-len", str(rc["len"]), "-reuse", str(rc.get("reuse", 0)),
+                "-small", str(rc.get("small", 0)), "-bad", str(rc.get("bad", -1))]
+
     """Decides a RIB-level property:
        1. TLC model-checks GribiRIB (bounded instance) for the invariants;
        2. TLC emits input sequences (exhaustive short ones + simulation walks);
@@ -259,14 +286,14 @@ class RIBFamily:
         walks = []
         # exhaustive short input sequences (history variable kept in the fingerprint)
         for kw in self.tier(ctx, self.exh):
-            run = require_ok(ctx.tlc("GribiRIB_MC", None, name="emit-exh", workers=1,
-                                     cfg_text=rib_cfg(EmitOn=True, view=False, invariants=False, **kw), timeout=1800),
+            run = require_ok(ctx.tlc(self.MC_MODULE, None, name="emit-exh", workers=1,
+                                     cfg_text=self.cfg(EmitOn=True, view=False, invariants=False, **kw), timeout=1800),
                              "exhaustive emission")
             walks += run.emitted()
         nexh = len(set(walks))
         for i, (kw, num, depth) in enumerate(self.tier(ctx, self.sims)):
-            run = require_ok(ctx.tlc("GribiRIB_MC", None, name="emit-sim", simulate=num, depth=depth,
-                                     seed=ctx.seed * 1000 + i, cfg_text=rib_cfg(EmitOn=True, invariants=False, **kw),
+            run = require_ok(ctx.tlc(self.MC_MODULE, None, name="emit-sim", simulate=num, depth=depth,
+                                     seed=ctx.seed * 1000 + i, cfg_text=self.cfg(EmitOn=True, invariants=False, **kw),
                                      timeout=1800), "simulation emission")
             walks += run.emitted()
         walks = list(dict.fromkeys(walks))
@@ -278,17 +305,29 @@ class RIBFamily:
             for w in walks:
                 f.write("@@" + w + "\n")
         rc = self.tier(ctx, self.random_cfg)
-        args = ["rib-run", "-in", wf, "-out", out, "-seed", str(ctx.seed), "-random", str(rc["n"]), "-len", str(rc["len"]),
-                "-reuse", str(rc.get("reuse", 0)), "-small", str(rc.get("small", 0)), "-bad", str(rc.get("bad", -1))]
-        p = ctx.run_vh(args)
-        if p.returncode != 0:
-            raise Infra("vh rib-run failed: " + p.stdout[-2000:] + p.stderr[-4000:])
-        return json.loads(p.stdout.strip().splitlines()[-1])
+        info = {}
+        first = True
+        for prof in (rc if isinstance(rc, list) else [rc]):
+            o = out if first else out + ".part"
+            args = [self.VH_CMD, "-out", o, "-seed", str(ctx.seed)] + (["-in", wf] if first else []) + self.vh_args(ctx, prof)
+            p = ctx.run_vh(args)
+            if p.returncode != 0:
+                raise Infra(f"vh {self.VH_CMD} failed: " + p.stdout[-2000:] + p.stderr[-4000:])
+            part = json.loads(p.stdout.strip().splitlines()[-1])
+            for k, v in part.items():
+                info[k] = info.get(k, 0) + v
+            if not first:
+                with open(out, "ab") as dst, open(o, "rb") as src:
+                    import shutil
+                    shutil.copyfileobj(src, dst)
+                os.remove(o)
+            first = False
+        return info
 
     def validate(self, ctx, trace):
-        cfg = ('SPECIFICATION TraceSpec\nCONSTANTS\n  DefaultNI = "DEFAULT"\n  TraceFile = "trace.ndjson"\n'
+        cfg = (f'SPECIFICATION {self.TRACE_SPEC}\nCONSTANTS\n  DefaultNI = "DEFAULT"\n  TraceFile = "trace.ndjson"\n'
                'POSTCONDITION TraceAccepted\nCHECK_DEADLOCK FALSE\n')
-        run = ctx.tlc("GribiRIBTrace", None, name="validate", workers=1, cfg_text=cfg,
+        run = ctx.tlc(self.TRACE_MODULE, None, name="validate", workers=1, cfg_text=cfg,
                       extra_files={trace: "trace.ndjson"}, timeout=3600, heap="12g")
         matched, total, mism = parse_trace_report(run)
         if matched != total:
@@ -299,30 +338,45 @@ class RIBFamily:
         """Turns reported deviations into violations of this property / notes about other properties."""
         if not mism:
             return
-        segs = Segments(trace)
+        segs = Segments(trace, self.RESET_PREFIX)
         byseg = collections.OrderedDict()
         other = collections.Counter()
+        known = {k.get("id"): k for k in vlib.load_known() if k.get("status") == "open"}
+        kf_seen = collections.Counter()
         for (ln, ev, comps) in mism:
             rec = segs.lines(ln, ln)[0] if len(byseg) < 10 else {}
-            mine = [c for c in comps if ctx.prop in rib_attr(c, ev, rec)]
+            mine = []
             for c in comps:
-                if c not in mine:
-                    owners = rib_attr(c, ev, rec)
-                    other["/".join(sorted(owners)) or "unattributed" + ":" + c] += 1
+                if c.startswith("KF:"):
+                    k = known.get(c[3:])
+                    if k is not None:
+                        if k.get("property") == ctx.prop:
+                            kf_seen[c[3:]] += 1
+                        else:
+                            other[f"{k.get('property')}:known finding {c[3:]}"] += 1
+                        continue
+                    # a quirk the known-findings file does not list: an ordinary violation
+                owners = self.attr(c, ev, rec)
+                if ctx.prop in owners:
+                    mine.append(c)
+                else:
+                    other[("/".join(sorted(owners)) or "unattributed") + ":" + c] += 1
             if mine:
                 s = segs.segment_of(ln)
                 byseg.setdefault(s, []).append((ln, ev, mine))
+        for kid, n in kf_seen.items():
+            res.known.append(f"{known[kid]['line']} ({n} occurrence(s) in this run)")
         for k, n in other.items():
             res.notes.append(f"{n} deviation(s) attributed to {k} (not to {ctx.prop})")
         for s, items in list(byseg.items())[:5]:
             ln, ev, mine = items[0]
             evs = segs.lines(s, ln)
-            rp = os.path.join(vlib.ROOT, "replays", f"{ctx.prop}-{vlib.sha(json.dumps(events_to_inputs(evs)))}.json")
+            rp = os.path.join(vlib.ROOT, "replays", f"{ctx.prop}-{vlib.sha(json.dumps(self.to_inputs(evs)))}.json")
             json.dump({
-                "property": ctx.prop, "family": "rib", "seed": ctx.seed, "tier": ctx.tier,
+                "property": ctx.prop, "family": self.FAMILY, "seed": ctx.seed, "tier": ctx.tier,
                 "first_deviation": {"trace_line": ln, "event": ev, "components": mine,
                                     "all_in_segment": [(a, b, c) for (a, b, c) in items[:20]]},
-                "inputs": events_to_inputs(evs),
+                "inputs": self.to_inputs(evs),
                 "failing_event": evs[-1],
                 "events": [strip_state(e) for e in evs[-30:]],
                 "rerun": f"./check {ctx.prop} --replay {rp}",
@@ -337,8 +391,8 @@ class RIBFamily:
         states = trans = 0
         mcs = []
         for kw in self.tier(ctx, self.mc):
-            run = require_ok(ctx.tlc("GribiRIB_MC", None, name="mc", workers=vlib.NCPU, cfg_text=rib_cfg(**kw), timeout=3000, heap="24g"),
-                             "model checking GribiRIB")
+            run = require_ok(ctx.tlc(self.MC_MODULE, None, name="mc", workers=vlib.NCPU, cfg_text=self.cfg(**kw), timeout=3000, heap="24g"),
+                             "model checking " + self.MC_MODULE)
             states += run.distinct
             trans += run.generated
             mcs.append({"constants": {k: (list(v) if isinstance(v, tuple) else v) for k, v in kw.items()},
@@ -347,7 +401,7 @@ class RIBFamily:
         trace = os.path.join(ctx.work, "trace.ndjson")
         info = self.record(ctx, walks, trace)
         run, mism = self.validate(ctx, trace)
-        stats = rib_trace_stats(trace, self.prop)
+        stats = self.stats(trace, self.prop)
         self.judge(ctx, res, trace, mism)
         res.coverage = {
             "states": states, "transitions": trans, "exhaustive": False,
@@ -355,10 +409,10 @@ class RIBFamily:
             "evaluations": stats["events"], "distinct_nontrivial": stats["nontrivial"],
             "distinct_input_sequences": stats["distinct"],
             "tlc_emitted_sequences": len(walks), "tlc_exhaustive_sequences": nexh,
-            "random_sequences": self.tier(ctx, self.random_cfg)["n"],
-            "rib_calls": info.get("calls"), "panics": info.get("panics"),
+            "random_sequences": sum(x["n"] for x in (self.tier(ctx, self.random_cfg) if isinstance(self.tier(ctx, self.random_cfg), list) else [self.tier(ctx, self.random_cfg)])),
+            "driver": info,
             "deviations_reported": len(mism),
-            "rule": RIB_RULE.get(self.prop, ""),
+            "rule": self.rule(),
             "samples": stats["samples"] or [["no non-trivial sample"]],
             "model_checking": mcs,
             "trace_validation": {"events": stats["events"], "tlc_secs": round(run.secs, 1)},
@@ -370,6 +424,9 @@ class RIBFamily:
         ]
         return res
 
+    def rule(self):
+        return RIB_RULE.get(self.prop, "")
+
     def replay(self, ctx, path):
         res = Result()
         rp = json.load(open(path))
@@ -378,14 +435,14 @@ class RIBFamily:
         walks = [json.dumps(rp["inputs"])]
         wf = os.path.join(ctx.work, "walks.txt")
         open(wf, "w").write("@@" + walks[0] + "\n")
-        p = ctx.run_vh(["rib-run", "-in", wf, "-out", trace, "-random", "0"])
+        p = ctx.run_vh([self.VH_CMD, "-in", wf, "-out", trace, "-random", "0"])
         if p.returncode != 0:
-            raise Infra("vh rib-run failed: " + p.stderr[-3000:])
+            raise Infra(f"vh {self.VH_CMD} failed: " + p.stderr[-3000:])
         run, mism = self.validate(ctx, trace)
         for m in mism:
             print("DEVIATION", m)
         self.judge(ctx, res, trace, mism)
-        stats = rib_trace_stats(trace, self.prop)
+        stats = self.stats(trace, self.prop)
         res.coverage = {"states": 1, "transitions": 1, "traces_validated_against_impl": 1,
                         "samples": [rp["inputs"][:14]], "evaluations": stats["events"], "distinct_nontrivial": stats["nontrivial"]}
         return res
@@ -437,3 +494,249 @@ _rib("C12",
      sims={"quick": [(dict(_SIM_RICH, BadKinds=("nh", "nhg", "v4", "v6", "mpls")), 150, 400), (_SIM_SMALL, 100, 300)],
            "thorough": [(dict(_SIM_RICH, BadKinds=("nh", "nhg", "v4", "v6", "mpls")), 3000, 400), (_SIM_SMALL, 1000, 300)]},
      exh=_EXH, random_cfg={"quick": {"n": 150, "len": 60, "small": 30, "bad": 15}, "thorough": {"n": 1500, "len": 80, "small": 30, "bad": 15}})
+
+
+# ---------------------------------------------------------------------------
+# Server family: GribiServer / GribiServer_MC / GribiServerTrace (message grain)
+
+SRV_INVARIANTS = "ElecIsMax OneVerdict SessShape InstalledIsFold CountersExact NoDangling NothingResolvableHeld MirrorIsRib"
+SRV_PROPERTIES = "ElecMonotone LowerNeverSteals OnlyPrimaryWrites ElecOnlyByElection"
+
+
+def srv_cfg(Sess=("s1", "s2", "s3"), HiVals=(0, 1), LoVals=(1, 2), ParamMsgs="good", WithBadMsgs=False, OpShapes="nh",
+            StampModes=("last", "any", "none"), FwdModes=(True,), AckModes=("RIB",), MaxMsgs=5, MaxOpen=2, WithClose=True,
+            WithFlushRPC=False, EmitOn=False, view=True, invariants=True):
+    lines = ["SPECIFICATION MCSpec", "CONSTANTS", '  DefaultNI = "DEFAULT"',
+             f"  Sess = {tlaset(Sess)}", f"  HiVals = {tlaset(HiVals)}", f"  LoVals = {tlaset(LoVals)}",
+             f"  ParamMsgs = {q(ParamMsgs)}", f"  WithBadMsgs = {str(WithBadMsgs).upper()}", f"  OpShapes = {q(OpShapes)}",
+             f"  StampModes = {tlaset(StampModes)}", f"  FwdModes = {tlaset(FwdModes)}", f"  AckModes = {tlaset(AckModes)}",
+             f"  MaxMsgs = {MaxMsgs}", f"  MaxOpen = {MaxOpen}", f"  WithClose = {str(WithClose).upper()}",
+             f"  WithFlushRPC = {str(WithFlushRPC).upper()}", f"  EmitOn = {str(EmitOn).upper()}"]
+    if view:
+        lines.append("VIEW View")
+    if invariants:
+        lines.append("INVARIANTS " + SRV_INVARIANTS)
+        lines.append("PROPERTIES " + SRV_PROPERTIES)
+    if EmitOn:
+        lines.append("INVARIANTS Emit")
+    lines.append("CHECK_DEADLOCK FALSE")
+    return "\n".join(lines) + "\n"
+
+
+def srv_attr(comp, ev, rec):
+    if comp.startswith("close:") or comp in ("closeEnd", "closeUnexpected"):
+        base = comp.split(":", 1)[1] if ":" in comp else comp
+        extra = {"sst:cur": {"C05"}, "sst:master": {"C05"}, "elecNotMax": {"C05"}}.get(base, set())
+        return {"C10"} | extra
+    if comp.startswith("flushGate") or comp in ("flushResult", "flushUnexpected"):
+        return {"C08"}
+    if comp.startswith("flush:"):
+        base = comp[6:]
+        if base in ("sst:cur", "sst:master", "elecNotMax"):
+            return {"C08", "C05"}
+        if base == "sst:sess":
+            return {"C08", "C09"}
+        return rib_attr(comp, ev, rec)
+    if comp.startswith("msgend:") or comp.startswith("open:"):
+        return {"C04", "C10"}      # state changed outside any RIB call of the primary
+    table = {
+        "resp:elec": {"C05"}, "sst:cur": {"C05", "C04"}, "sst:master": {"C05", "C04"}, "elecNotMax": {"C05"},
+        "ribCallUnexpected": {"C04"}, "strayrib": {"C04"}, "ribCallMissing": {"C04", "C06"},
+        "opResp": {"C06"}, "extraResp": {"C06"}, "opsUnanswered": {"C06"}, "opOrder": {"C06"}, "foreignResult": {"C06"},
+        "respAfterRibError": {"C06", "C12"}, "respInsteadOfError": {"C09", "C04"},
+        "end": {"C09"}, "resp": {"C09"}, "sst:sess": {"C09"}, "msgUnexpected": {"C09"}, "openUnexpected": {"C09"},
+        "openEnd": {"C09"}, "msgendUnexpected": {"C09"},
+        "getEnd": {"C07"}, "getBadEntry": {"C07"}, "getDuplicate": {"C07"}, "getEntries": {"C07"}, "getRebuild": {"C07"},
+        "getForeignEntry": {"C07"}, "getEndAfterSendFailure": {"C10"},
+        "hang": {"C10", "C11"}, "panic": {"C12"},
+    }
+    if comp in table:
+        return table[comp]
+    return rib_attr(comp, ev, rec)
+
+
+def srv_events_to_inputs(evs):
+    ins = []
+    for e in evs:
+        k = e["ev"]
+        if k == "sreset":
+            ins.append({"a": "sreset", "nis": e["nis"], "fwd": e["fwd"]})
+        elif k == "open":
+            ins.append({"a": "open", "s": e["s"]})
+        elif k == "msgbegin":
+            ins.append({"a": "msg", "s": e["s"], "m": e["m"], "sendfail": e.get("sendfail", False)})
+        elif k == "close":
+            ins.append({"a": "close", "s": e["s"], "mode": e["mode"]})
+        elif k == "flushrpc":
+            ins.append({"a": "flushrpc", "r": e["r"]})
+        elif k == "get":
+            x = {"a": "get", "g": e["g"]}
+            if "failafter" in e:
+                x["failafter"] = e["failafter"]
+            ins.append(x)
+    return ins
+
+
+def srv_trace_stats(path, prop):
+    segs = events = 0
+    distinct, nontrivial = set(), set()
+    samples = []
+    cur = None
+
+    def close():
+        nonlocal cur
+        if cur is None:
+            return
+        key = vlib.sha(json.dumps(cur["ins"], sort_keys=True))
+        distinct.add(key)
+        f = cur["f"]
+        ante = {
+            "C04": f["rejected_op"] > 0 and f["installed"] > 0,
+            "C05": f["elec"] >= 2 and f["lower"] > 0,
+            "C06": f["installed"] > 0 and (f["cascade"] > 0 or f["failed"] > 0),
+            "C07": f["get_nonempty"] > 0,
+            "C08": f["flush"] > 0 and f["installed"] > 0,
+            "C09": f["rpc_error"] > 0,
+            "C10": f["close"] > 0 and f["after_close"] > 0,
+            "C12": f["bad"] > 0,
+        }.get(prop, f["installed"] > 0)
+        if ante:
+            nontrivial.add(key)
+            if len(samples) < 3:
+                samples.append(cur["ins"][:16])
+        cur = None
+
+    with open(path) as fh:
+        for line in fh:
+            e = json.loads(line)
+            events += 1
+            k = e["ev"]
+            if k == "sreset":
+                close()
+                segs += 1
+                cur = {"ins": [], "f": collections.Counter(), "maxid": [0, 0], "closed": False}
+            if cur is None:
+                continue
+            cur["ins"] += srv_events_to_inputs([e])
+            f = cur["f"]
+            if cur["closed"] and k in ("msgbegin", "get", "flushrpc"):
+                f["after_close"] += 1
+            if k == "msgbegin":
+                m = e["m"]
+                if m["k"] == "elec":
+                    f["elec"] += 1
+                    if m["id"] < cur["maxid"]:
+                        f["lower"] += 1
+                    else:
+                        cur["maxid"] = m["id"]
+                elif m["k"] == "ops":
+                    for o in m["ops"]:
+                        if o.get("bad"):
+                            f["bad"] += 1
+            elif k == "try":
+                if e["out"] == "installed":
+                    f["installed"] += 1
+            elif k == "addend":
+                if len(e.get("oks", [])) > 1:
+                    f["cascade"] += 1
+            elif k == "opdone":
+                rs = e["resp"].get("results", [])
+                if any(r["st"] == "FAILED" for r in rs):
+                    f["failed"] += 1
+                    f["rejected_op"] += 1
+            elif k == "msgend":
+                if e["end"]["code"] not in ("", "OK"):
+                    f["rpc_error"] += 1
+            elif k == "close":
+                f["close"] += 1
+                cur["closed"] = True
+            elif k == "get":
+                if e.get("entries"):
+                    f["get_nonempty"] += 1
+            elif k == "flushrpc":
+                f["flush"] += 1
+    close()
+    return dict(segments=segs, events=events, distinct=len(distinct), nontrivial=len(nontrivial), samples=samples)
+
+
+SRV_RULE = {
+    "C04": "one case = one input sequence (sessions, announcements, operations, disconnects) driven through server.Modify on in-process streams; non-trivial = some operation was rejected and some operation was installed",
+    "C05": "one case = one input sequence; non-trivial = at least two announcements and one of them lower than the running maximum",
+    "C06": "one case = one input sequence; non-trivial = installs entries and contains a cascade acknowledgement or a FAILED result",
+    "C07": "one case = one input sequence; non-trivial = a Get returned at least one entry",
+    "C08": "one case = one input sequence; non-trivial = a Flush RPC on a server that had installed entries",
+    "C09": "one case = one input sequence; non-trivial = at least one Modify RPC ended with a non-OK status",
+    "C10": "one case = one input sequence; non-trivial = a session was cut off and the server was used afterwards",
+    "C12": "one case = one input sequence; non-trivial = contains a malformed operation",
+}
+
+
+class ServerFamily(RIBFamily):
+    MC_MODULE = "GribiServer_MC"
+    TRACE_MODULE = "GribiServerTrace"
+    TRACE_SPEC = "STraceSpec"
+    VH_CMD = "srv-run"
+    FAMILY = "server"
+    RESET_PREFIX = '{"ev":"sreset"'
+
+    @staticmethod
+    def cfg(**kw):
+        return srv_cfg(**kw)
+
+    @staticmethod
+    def attr(comp, ev, rec):
+        return srv_attr(comp, ev, rec)
+
+    @staticmethod
+    def stats(path, prop):
+        return srv_trace_stats(path, prop)
+
+    @staticmethod
+    def to_inputs(evs):
+        return srv_events_to_inputs(evs)
+
+    def vh_args(self, ctx, rc):
+        return ["-random", str(rc["n"]), "-len", str(rc["len"]), "-profile", rc.get("profile", "mixed")]
+
+    def rule(self):
+        return SRV_RULE.get(self.prop, "")
+
+
+def _srv(prop, **kw):
+    REGISTRY[prop] = ServerFamily(prop, **kw)
+
+
+_S_EXH = {"quick": [dict(MaxMsgs=3, MaxOpen=2, HiVals=(0, 1), LoVals=(1,), OpShapes="nh", StampModes=("last", "none"))],
+          "thorough": [dict(MaxMsgs=4, MaxOpen=2, HiVals=(0, 1), LoVals=(1, 2), OpShapes="nh", StampModes=("last", "any", "none"))]}
+_S_SIM_ELEC = dict(MaxMsgs=14, MaxOpen=3, HiVals=(0, 1, 2), LoVals=(1, 2, 3), OpShapes="nh", StampModes=("last", "any", "none"))
+_S_SIM_FSM = dict(MaxMsgs=12, MaxOpen=3, ParamMsgs="all", WithBadMsgs=True, AckModes=("RIB", "RIB_FIB"), OpShapes="nh", WithFlushRPC=True)
+_S_SIM_OPS = dict(MaxMsgs=16, MaxOpen=2, OpShapes="chain", StampModes=("last",), AckModes=("RIB", "RIB_FIB"), FwdModes=(True, False), HiVals=(0,), LoVals=(1, 2))
+_S_SIMS = {"quick": [(_S_SIM_ELEC, 120, 300), (_S_SIM_FSM, 120, 300), (_S_SIM_OPS, 120, 400)],
+           "thorough": [(_S_SIM_ELEC, 2500, 300), (_S_SIM_FSM, 2500, 300), (_S_SIM_OPS, 2500, 400)]}
+
+
+def _rnd(profiles, nq, nt, length=50):
+    return {"quick": [{"n": nq, "len": length, "profile": p} for p in profiles],
+            "thorough": [{"n": nt, "len": length + 20, "profile": p} for p in profiles]}
+
+
+_srv("C04",
+     mc={"quick": [dict(MaxMsgs=5, MaxOpen=2, HiVals=(0, 1), LoVals=(1, 2))],
+         "thorough": [dict(MaxMsgs=6, MaxOpen=3, HiVals=(0, 1), LoVals=(1, 2)), dict(MaxMsgs=7, MaxOpen=2, HiVals=(0, 1), LoVals=(1,), OpShapes="chain", StampModes=("last", "any"))]},
+     sims=_S_SIMS, exh=_S_EXH, random_cfg=_rnd(["elec", "ops"], 60, 600))
+_srv("C05",
+     mc={"quick": [dict(MaxMsgs=5, MaxOpen=3, HiVals=(0, 1, 2), LoVals=(1, 2), StampModes=("last",))],
+         "thorough": [dict(MaxMsgs=6, MaxOpen=3, HiVals=(0, 1, 2), LoVals=(1, 2, 3), StampModes=("last",))]},
+     sims=_S_SIMS, exh=_S_EXH, random_cfg=_rnd(["elec", "fsm"], 60, 600))
+_srv("C06",
+     mc={"quick": [dict(MaxMsgs=6, MaxOpen=2, HiVals=(0,), LoVals=(1, 2), OpShapes="chain", StampModes=("last",), AckModes=("RIB", "RIB_FIB"))],
+         "thorough": [dict(MaxMsgs=8, MaxOpen=2, HiVals=(0,), LoVals=(1, 2), OpShapes="chain", StampModes=("last",), AckModes=("RIB", "RIB_FIB"), FwdModes=(True, False))]},
+     sims=_S_SIMS, exh=_S_EXH, random_cfg=_rnd(["ops", "elec"], 60, 600))
+_srv("C07",
+     mc={"quick": [dict(MaxMsgs=6, MaxOpen=1, HiVals=(0,), LoVals=(1,), OpShapes="chain", StampModes=("last",))],
+         "thorough": [dict(MaxMsgs=8, MaxOpen=1, HiVals=(0,), LoVals=(1,), OpShapes="chain", StampModes=("last",))]},
+     sims=_S_SIMS, exh=_S_EXH, random_cfg=_rnd(["get", "ops"], 80, 800))
+_srv("C09",
+     mc={"quick": [dict(MaxMsgs=4, MaxOpen=2, ParamMsgs="all", WithBadMsgs=True, AckModes=("RIB", "RIB_FIB"), HiVals=(0,), LoVals=(1,), StampModes=("last", "none"))],
+         "thorough": [dict(MaxMsgs=5, MaxOpen=3, ParamMsgs="all", WithBadMsgs=True, AckModes=("RIB", "RIB_FIB"), HiVals=(0,), LoVals=(1, 2), StampModes=("last", "none"))]},
+     sims=_S_SIMS, exh=_S_EXH, random_cfg=_rnd(["fsm", "elec"], 80, 800))
